@@ -22,6 +22,9 @@ pub enum Host {
     IterIn { u: usize },
     IterInto { u: usize },
     Search { root: usize, spec: SearchSpec },
+    /// an edge walk driven through iterator adaptors: dir 0 out / 1 in / 2 `(&node).into_iter()`;
+    /// style 1 asks size_hint() around every next(), style 2 is `.map(body).collect()`
+    Adapted { u: usize, dir: u8, style: u8 },
 }
 
 /// operand: an absolute node, or an endpoint of the edge under the cursor
@@ -60,6 +63,9 @@ pub struct InjSc {
     pub script: Vec<InjOp>,
     /// fire[i] = number of pending script entries executed at step i
     pub fire: Vec<u8>,
+    /// an operation that adds no edge, executed at EVERY step (the traversal must still end)
+    #[serde(default)]
+    pub every_step: Option<InjOp>,
 }
 
 pub struct Inject;
@@ -174,6 +180,18 @@ impl<'a, F: Flavour> Ctx<'a, F> {
             }
             let iop = self.sc.script[self.next].clone();
             self.next += 1;
+            self.fire_one(iop, y);
+        }
+        if self.violation.is_none() {
+            if let Some(iop) = self.sc.every_step.clone() {
+                self.stats.inc("injected_every_step_ops");
+                self.fire_one(iop, y);
+            }
+        }
+    }
+
+    fn fire_one(&mut self, iop: InjOp, y: (usize, usize)) {
+        {
             self.stats.inc("injected_ops");
             match &iop {
                 InjOp::GInsertNew { key } => {
@@ -199,7 +217,7 @@ impl<'a, F: Flavour> Ctx<'a, F> {
                             self.extra_nodes.push(node);
                         }
                     }
-                    continue;
+                    return;
                 }
                 InjOp::GRemove { u } | InjOp::GReinsert { u } | InjOp::GGet { u } => {
                     let k = resolve(*u, y);
@@ -257,7 +275,7 @@ impl<'a, F: Flavour> Ctx<'a, F> {
                             return;
                         }
                     }
-                    continue;
+                    return;
                 }
                 InjOp::GToVec => {
                     if let Some(g) = self.graph.as_ref() {
@@ -276,13 +294,13 @@ impl<'a, F: Flavour> Ctx<'a, F> {
                             return;
                         }
                     }
-                    continue;
+                    return;
                 }
                 _ => {}
             }
             let Some(op) = self.concrete(&iop, y) else {
                 self.stats.inc("injected_ops_skipped_operand_out_of_range");
-                continue;
+                return;
             };
             if let Op::Disconnect { u, k, .. } = &op {
                 if (*u, *k) == y || (!F::DIRECTED && (*k, *u) == y) {
@@ -319,7 +337,7 @@ impl<'a, F: Flavour> Ctx<'a, F> {
                 _ => {}
             }
             if let Op::Search { .. } = op {
-                continue;
+                return;
             }
             let pre = self.model.clone();
             if let Err(m) = self.model.apply(&op, &obs) {
@@ -466,6 +484,12 @@ fn run_host<F: Flavour>(sc: &InjSc, with_script: bool, stats: &mut Stats) -> (Op
         Host::IterInto { u } => F::for_into(&world.nodes[*u], &mut |a, b, e| {
             ctx.borrow_mut().on_yield(F::key(&a), F::key(&b), e.0, Some((0, *u)))
         }),
+        Host::Adapted { u, dir, style } => {
+            let pos = if F::DIRECTED && *dir == 1 { 1 } else { 0 };
+            F::for_adapted(&world.nodes[*u], *dir, *style, &mut |a, b, e| {
+                ctx.borrow_mut().on_yield(F::key(&a), F::key(&b), e.0, Some((pos, *u)))
+            })
+        }
         Host::Search { root, spec } => {
             let mask = spec.mask;
             let out = F::search(&world.nodes[*root], spec, &mut |a, b, e| {
@@ -629,10 +653,11 @@ impl Engine for Inject {
         // prefer a host node that has something to iterate
         let busy: Vec<usize> = (0..n).filter(|u| m.incident(*u) > 0).collect();
         let hu = if !busy.is_empty() && rng.chance(4, 5) { *rng.pick(&busy) } else { rng.below(n) };
-        let host = match rng.below(10) {
+        let host = match rng.below(12) {
             0..=1 => Host::IterOut { u: hu },
             2 => Host::IterIn { u: hu },
             3 => Host::IterInto { u: hu },
+            4..=5 => Host::Adapted { u: hu, dir: rng.below(3) as u8, style: rng.range(1, 2) as u8 },
             _ => Host::Search { root: hu, spec: gen_host_spec(rng, directed, n) },
         };
         let in_graph = rng.chance(1, 3);
@@ -684,14 +709,14 @@ impl Engine for Inject {
         // where the script fires: a seeded plan over the first steps; most hosts run for only a
         // few steps, so the plan is kept within the number of steps the frozen graph would give
         let est = match &host {
-            Host::IterOut { u } | Host::IterInto { u } => {
+            Host::IterOut { u } | Host::IterInto { u } | Host::Adapted { u, dir: 0 | 2, .. } => {
                 if directed {
                     m.out(*u).len()
                 } else {
                     m.adj(*u).len()
                 }
             }
-            Host::IterIn { u } => {
+            Host::IterIn { u } | Host::Adapted { u, .. } => {
                 if directed {
                     m.inn(*u).len()
                 } else {
@@ -710,6 +735,35 @@ impl Engine for Inject {
             // everything at the first step
             fire = vec![script.len() as u8];
         }
+        // an operation that adds no edge, repeated at every step
+        let every_step = if rng.chance(1, 6) {
+            Some(match rng.below(10) {
+                0..=3 => {
+                    let mut spec = gen::gen_search_spec(rng, &m, true);
+                    if !spec.valid(directed) {
+                        spec.transpose = false;
+                    }
+                    // prefer the kind of the host (a nested search of the same kind shares whatever
+                    // state the implementation keeps per kind)
+                    if let Host::Search { spec: hs, .. } = &host {
+                        if rng.coin() && !matches!(hs.kind, SKind::Pre | SKind::Post) {
+                            spec.kind = hs.kind;
+                            spec.mode = *rng.pick(&[SMode::Find, SMode::Path, SMode::Cycle]);
+                            if spec.mode == SMode::Cycle {
+                                spec.target = None;
+                            }
+                        }
+                    }
+                    InjOp::NestedSearch { root: gen_t(rng, n), spec }
+                }
+                4..=5 => InjOp::NestedIter { u: gen_t(rng, n) },
+                6..=7 => InjOp::Query { kind: rng.below(8) as u8, u: gen_t(rng, n), k: gen_t(rng, n) },
+                8 => InjOp::Disconnect { u: T::YSrc, k: T::YDst, h: Prov::Own },
+                _ => InjOp::GToVec,
+            })
+        } else {
+            None
+        };
         InjSc {
             flavour,
             prios,
@@ -719,6 +773,7 @@ impl Engine for Inject {
             host,
             script,
             fire,
+            every_step,
         }
     }
 
@@ -728,11 +783,12 @@ impl Engine for Inject {
             Host::IterOut { .. } => "host_iter_out".to_string(),
             Host::IterIn { .. } => "host_iter_in".to_string(),
             Host::IterInto { .. } => "host_into_iter".to_string(),
+            Host::Adapted { dir, style, .. } => format!("host_adapted_dir{dir}_{}", if *style == 1 { "size_hint" } else { "map_collect" }),
             Host::Search { spec, .. } => format!("host_{:?}_{:?}{}", spec.kind, spec.mode, if spec.transpose { "_T" } else { "" }).to_lowercase(),
         };
         stats.inc(&hk);
         let fp = crate::rng::fnv(
-            serde_json::to_string(&(&sc.flavour, &sc.initial, &sc.host, &sc.script, &sc.fire))
+            serde_json::to_string(&(&sc.flavour, &sc.initial, &sc.host, &sc.script, &sc.fire, &sc.every_step))
                 .unwrap()
                 .as_bytes(),
         );
@@ -769,6 +825,11 @@ impl Engine for Inject {
             c.in_graph = false;
             out.push(c);
         }
+        if sc.every_step.is_some() {
+            let mut c = sc.clone();
+            c.every_step = None;
+            out.push(c);
+        }
         // trailing empty steps
         if sc.fire.last() == Some(&0) {
             let mut c = sc.clone();
@@ -781,7 +842,7 @@ impl Engine for Inject {
             let k = n - 1;
             let uses = |t: &T| matches!(t, T::Abs(x) if *x == k);
             let host_uses = match &sc.host {
-                Host::IterOut { u } | Host::IterIn { u } | Host::IterInto { u } => *u == k,
+                Host::IterOut { u } | Host::IterIn { u } | Host::IterInto { u } | Host::Adapted { u, .. } => *u == k,
                 Host::Search { root, spec } => *root == k || spec.target == Some(k),
             };
             let script_uses = sc.script.iter().any(|o| match o {
@@ -792,7 +853,13 @@ impl Engine for Inject {
                 InjOp::NestedSearch { root, spec } => uses(root) || spec.target == Some(k),
                 _ => false,
             });
-            if !host_uses && !script_uses && !sc.initial.iter().any(|(u, v, _)| *u == k || *v == k) {
+            let every_uses = match &sc.every_step {
+                Some(InjOp::NestedSearch { root, spec }) => uses(root) || spec.target == Some(k),
+                Some(InjOp::NestedIter { u }) => uses(u),
+                Some(InjOp::Query { u, k: kk, .. }) | Some(InjOp::Disconnect { u, k: kk, .. }) => uses(u) || uses(kk),
+                _ => false,
+            };
+            if !host_uses && !script_uses && !every_uses && !sc.initial.iter().any(|(u, v, _)| *u == k || *v == k) {
                 let mut c = sc.clone();
                 c.prios.pop();
                 out.push(c);
@@ -827,6 +894,12 @@ impl Engine for Inject {
                 _ => false,
             })
             .count();
-        sc.script.len() * 16 + sc.initial.len() * 4 + sc.prios.len() * 2 + sc.fire.len() + sc.in_graph as usize + provs
+        sc.script.len() * 16
+            + sc.initial.len() * 4
+            + sc.prios.len() * 2
+            + sc.fire.len()
+            + sc.in_graph as usize
+            + provs
+            + sc.every_step.is_some() as usize * 8
     }
 }
